@@ -34,6 +34,10 @@ REC_BODIES = ["if (type == \"number\") and . < 3 then (. + 1 | {SELF}) else \"{N
               "(if type == \"number\" then . else 0 end) as $n | if $n < 3 then ($n + 1 | {SELF}) // 5 else $n end"]
 
 
+NATIVE0 = ["floor", "tojson", "utf8bytelength", "not", "add", "keys"]
+NATIVE1 = ["ltrimstr", "has", "contains", "map", "select"]
+
+
 def gen_graph(rng, n, cyclic=False):
     mods = [Mod("m%d" % i) for i in range(n)]
     for i, m in enumerate(mods):
@@ -42,13 +46,23 @@ def gen_graph(rng, n, cyclic=False):
             if rng.random() < 0.45:
                 kind = rng.choice(["include", "import"])
                 m.deps.append((kind, mods[j], "a%d" % j))
+        # the same directive once more after another one: the later occurrence counts for shadowing, the file is loaded once
+        if len(m.deps) >= 2 and rng.random() < 0.35:
+            m.deps.append(rng.choice(m.deps[:-1]))
         if rng.random() < 0.3:
             m.data.append(("d%d" % i, "[%d, \"x\"] {\"k\": %d}" % (i, i)))
         names = rng.sample(["f", "g", "h", "f"], rng.randint(1, 3))
+        # definitions named like built-in filters (native ones and ones of the prelude) shadow them for everybody who includes or imports them
+        if rng.random() < 0.4:
+            names.insert(rng.randint(0, len(names)), rng.choice(NATIVE0 + NATIVE1))
         for nm in names:
             params = rng.choice([[], [], ["x"], ["$x"]])
+            if nm in NATIVE0:
+                params = []
+            if nm in NATIVE1:
+                params = rng.choice([["x"], ["$x"]])
             body = rng.choice(BODIES).replace("{N}", m.name)
-            if not params and rng.random() < 0.3:
+            if not params and nm not in NATIVE0 and rng.random() < 0.3:
                 body = rng.choice(REC_BODIES).replace("{N}", m.name).replace("{SELF}", nm)
             # call into dependencies
             calls = []
